@@ -490,3 +490,41 @@ def run_bos_corr(ctx, n_cases):
             m = np.array([rat(z) for z in model["mu"]])
             if np.max(np.abs(m - real["mu"]), initial=0) > 1e-9 * max(1.0, float(np.max(np.abs(m), initial=0))):
                 ctx.disagree("Bosonic.updateMeans vs update_means", case, str(m), str(real["mu"]))
+
+
+# ---------------------------------------------------------------- K4: Kraus operators of the Fock loss channel
+
+def run_loss_corr(ctx):
+    """`fockbackend.ops.lossChannel(T, D)` vs `SFV.Model.FockLoss`: the number of Kraus operators, their band structure
+    `E(k)[v, a] != 0 only for v + k = a`, real non-negative amplitudes whose squares are `C(a,k) (1-T)^k T^(a-k)`"""
+    if not ctx.proof_ok:
+        return
+    from strawberryfields.backends.fockbackend import ops as fops
+    rng = ctx.rng
+    reqs, reals, cases = [], [], []
+    Ts = [Fraction(0), Fraction(1), Fraction(1, 2), Fraction(1, 4), Fraction(9, 10), Fraction(1, 3), Fraction(1, 100)]
+    for D in range(1, 8 if ctx.tier == "quick" else 13):
+        for T in (Ts if D <= 5 else rng.sample(Ts, 3)):
+            reqs.append(dict(op="fock.lossSq", D=D, T=fr(T)))
+            reals.append(fops.lossChannel(float(T), D))
+            cases.append(dict(D=D, T=str(T)))
+    rat = lambda v: v[0] / v[1]
+    for req, real, case, model in zip(reqs, reals, cases, ctx.lean(reqs)):
+        ctx.corr_cases += 1
+        ctx.count("loss-kraus", case, case["D"] >= 2 and case["T"] not in ("0", "1"), sample=case)
+        if "__error__" in model:
+            ctx.disagree("FockLoss driver error", case, model, None)
+            continue
+        D = case["D"]
+        if len(real) != model["count"]:
+            ctx.disagree("FockLoss.lossKrausList length vs len(lossChannel(T, D))", case, model["count"], len(real))
+            continue
+        for k, E in enumerate(real):
+            E = np.asarray(E)
+            want = np.zeros((D, D))
+            for a in range(D):
+                if a - k >= 0:
+                    want[a - k, a] = math.sqrt(rat(model["sq"][k][a]))
+            if E.shape != (D, D) or np.max(np.abs(E - want), initial=0) > 1e-12:
+                ctx.disagree("FockLoss.lossKraus vs lossChannel(T, D)[k]", dict(case, k=k), str(want), str(E))
+                break
